@@ -330,6 +330,9 @@ func (w *World) ServiceSDL(s *Service) string {
 		case "ENUM":
 			b.WriteString("enum " + t + " {\n  " + strings.Join(td.Members, "\n  ") + "\n}\n\n")
 			continue
+		case "SCALAR":
+			b.WriteString("scalar " + t + "\n\n")
+			continue
 		}
 		kw := "type"
 		if td.Kind == "INTERFACE" {
